@@ -33,7 +33,8 @@ fn pool(seed: u64, n: usize) -> Vec<Cfg> {
 pub fn solo_child(args: &Args, mut out: Out) -> usize {
     let p = pool(args.num("seed", 1), args.num("pool", 40) as usize);
     let c = p[args.num("index", 0) as usize].clone();
-    let r = guarded(move || c.evaluator().into_iter().map(|sd| item(&sd)).collect::<Vec<_>>());
+    let cap = c.max_deals() + 1;
+    let r = guarded(move || c.evaluator().into_iter().take(cap).map(|sd| item(&sd)).collect::<Vec<_>>());
     match r {
         Some(items) => out.line(&format!("{{\"outcome\":\"ok\",\"items\":{}}}", items_json(&items))),
         None => out.line("{\"outcome\":\"panic\",\"items\":[]}"),
@@ -91,11 +92,15 @@ pub fn record_c15(args: &Args, mut out: Out) -> usize {
             let (shared, barrier) = (shared.clone(), barrier.clone());
             hs.push(std::thread::spawn(move || {
                 let ev = shared[id].evaluator();
+                let cap = shared[id].max_deals();
                 barrier.wait();
                 let r = guarded(move || {
                     let mut it = ev.into_iter();
                     let mut items = vec![];
                     while let Some(sd) = it.next() {
+                        if items.len() > cap {
+                            break;
+                        }
                         items.push(item(&sd));
                         if items.len() % 64 == 0 {
                             std::thread::yield_now();
